@@ -295,7 +295,7 @@ Lemma validate_total h p :
   (forall fr r, zfind fr (pi_cels p) = Some r -> forall j c, nthz r j = Some (Some c) -> cel_valid h p j c) ->
   exists f, validate h p = Ok f.
 Proof.
-  intros (ps & Hps) Hts Hty Hcels. unfold validate. fold (layers_of p). rewrite Hps. cbn [rbind].
+  intros (ps & Hps) Hts Hty Hcels. unfold validate; rewrite ?frev_eq. fold (layers_of p). rewrite Hps. cbn [rbind].
   rewrite Hts. unfold validate_tilesets. rewrite zelements_zempty. cbn [rfold rbind].
   assert (validate_layers (layers_of p) zempty = Ok tt) as ->.
   { unfold validate_layers.
